@@ -488,10 +488,16 @@ func (e *Engine) doStep(st *Step) *Violation {
 	}
 	if e.P.Wide == "tables" && e.P.Profile == "C15" && HooksEnabled && !e.locked() && len(st.A) > 1 && st.A[1]%3 == 0 {
 		// steering only (never a verdict): reset exactly when a relation node holds a whole number of table pages
-		if n := relTablesPerNode(e.S.W); n > 0 && n%32 == 0 && n != e.lastBorderReset {
+		n := relTablesPerNode(e.S.W)
+		manyTables := e.P.EntityCap >= 300 // the variant that goes beyond four pages of tables: no reset before that
+		if (!manyTables && n > 0 && n%32 == 0 && n != e.lastBorderReset) ||
+			(manyTables && n > 128 && n > e.lastBorderReset+8 && (n%32 == 0 || st.A[1]%24 == 0)) {
 			opName = "reset"
 			e.lastBorderReset = n
 			e.St.Probes["reset-on-table-page-border"]++
+			if n > 128 {
+				e.St.Probes["reset-with->128-tables-in-one-node"]++
+			}
 		}
 	}
 	switch opName {
